@@ -1088,6 +1088,88 @@ def corr_as_curl(chk, drv, tbl, auto, variants, n):
 
 
 
+class _CannedAdapter(requests.adapters.BaseAdapter):
+    """answers every request with 200 `{}` without touching the network and keeps the request that was sent"""
+
+    def __init__(self):
+        super().__init__()
+        self.sent = []
+
+    def send(self, request, **kwargs):
+        import datetime
+        import io
+
+        from urllib3.response import HTTPResponse
+        self.sent.append(request)
+        r = requests.Response()
+        r.status_code, r.reason, r.url, r.request = 200, "OK", request.url, request
+        r.raw = HTTPResponse(body=io.BytesIO(b"{}"), headers={"Content-Type": "application/json"}, status=200, version=11,
+                             preload_content=False)
+        r.headers = requests.structures.CaseInsensitiveDict({"Content-Type": "application/json"})
+        r._content = b"{}"
+        r.elapsed = datetime.timedelta(0)
+        return r
+
+    def close(self):
+        pass
+
+
+def corr_validate_response(chk, drv, tbl, auto, n):
+    """The Python API's own call site: `case.call_and_validate(session=…, headers=…, cookies=…)` with a failing check
+    raises a FailureGroup whose text carries `Reproduce with: curl …`.  The request really sent is the one the session's
+    adapter received (session headers and cookies, the `headers=` / `cookies=` arguments, the case's own data); the
+    printed command is judged against that request by the Lean specification, like every other command."""
+    from schemathesis.core.failures import Failure, FailureGroup
+    rng = chk.rng
+    schema = build_schema("http://127.0.0.1:1/api")
+
+    def failing(ctx, response, case):
+        raise Failure(operation=case.operation.label, title="harness", message="always fails")
+
+    items = []
+    for i in range(n):
+        op, kw = gen_case(rng, schema, ascii_only=True)
+        user = rng.choice(REC_USER_HEADERS)
+        sess_headers = rng.choice([None, {"Authorization": "Bearer s.e.s"}, {"X-Session-Tenant": "blue"}, {"X-Tok": "it's"},
+                                   {"Authorization": "Basic dTpw", "X-Trace": "t 1"}])
+        cookies = rng.choice([None, None, {"sid": "c1"}])
+        own = requests.Session()
+        adapter = _CannedAdapter()
+        own.mount("http://", adapter)
+        own.headers.update(sess_headers or {})
+        extra = {"cookies": cookies} if cookies else {}
+        cmd = None
+        try:
+            case = op.Case(**kw)
+            case.call_and_validate(session=own, headers=user, checks=[failing], **extra)
+        except FailureGroup as fg:
+            text = str(fg.message if hasattr(fg, "message") else fg)
+            _, sep, tail = text.partition("Reproduce with: \n\n    ")    # the last block of the message, verbatim
+            cmd = tail if sep else None
+        except Exception as e:  # noqa: BLE001  (requests rejects the header / body before anything is sent)
+            chk.case("validate_response", key=[str(kw), str(user)], nontrivial=False)
+            chk.feature(f"validate_response:rejected:{type(e).__name__}")
+            continue
+        rin = {"kw": {k: (v if not isinstance(v, bytes) else list(v)) for k, v in kw.items()}, "op": op.label, "headers_arg": user,
+               "session_headers": sess_headers, "cookies_arg": cookies}
+        chk.case("validate_response", key=rin, nontrivial=True, sample={"in": rin, "impl": cmd})
+        chk.feature(f"validate_response:headers-arg={user is not None}:session-headers={sess_headers is not None}:"
+                    f"cookies={cookies is not None}")
+        if cmd is None or len(adapter.sent) != 1:
+            chk.violation("C09:validate_response:no-code-sample-in-the-failure-message",
+                          "call_and_validate raised no FailureGroup with a `Reproduce with` block for a failing check",
+                          {"kind": "validate_response", "input": rin})
+            continue
+        sent = adapter.sent[0]
+        text, is_text = text_of(sent.body)
+        orig = canon_original({"method": str(sent.method), "url": str(sent.url), "body": text, "verify": True,
+                               "headers": [[str(k), str(v)] for k, v in sent.headers.items()], "known": list(case.headers or {})})
+        ascii_headers = all(str(v).isascii() for v in sent.headers.values())
+        items.append((canon_boundary(cmd), orig, is_text and ascii_headers, rin))
+    judge_commands(chk, drv, "validate_response", items, tbl, auto, site="validate_response")
+
+
+
 # ---- output sanitization enabled ---------------------------------------------------------------------------------
 
 SENSITIVE_NAMES = ["Authorization", "X-API-Key", "X-Token", "Cookie", "X-Auth", "Session-Id", "X-Secret-Thing", "KEY", "X-Monkey",
@@ -2324,6 +2406,7 @@ def _run_with(chk, rec):
     corr_generate(chk, drv, tbl, auto, variants, chk.budget(2500, 25000))
     corr_generate(chk, drv, tbl, auto, variants, chk.budget(1500, 15000), wf_only=True, mechanism="generate-wf")
     corr_as_curl(chk, drv, tbl, auto, variants, chk.budget(1500, 12000))
+    corr_validate_response(chk, drv, tbl, auto, chk.budget(300, 3000))
     corr_recorder(chk, drv, tbl, auto, variants, chk.budget(400, 4000))
     corr_sanitize_value(chk, drv, chk.budget(1500, 15000))
     validate_form_decoder(chk, drv, chk.budget(1500, 15000))
